@@ -1,5 +1,5 @@
 SPECIFICATION Spec
-CONSTANTS Tunings = {"default", "a1", "a1k3", "a05"} MaxGroup = 4 PermSet = "all"
+CONSTANTS Tunings = {"default", "a1", "a1k3", "a05", "a1e4", "a1e5"} MaxGroup = 4 PermSet = "all"
 CONSTANT KindSets <- KindSetsSim
 CONSTANT Placements <- PlacementsThorough
 CONSTANT SubPatterns <- SubsThorough
